@@ -8,7 +8,6 @@ import (
 
 	"github.com/unixpickle/model3d/numerical"
 	"pgregory.net/rapid"
-	"verifharness/gen"
 	"verifharness/kit"
 )
 
@@ -59,12 +58,12 @@ func genSparse(t *rapid.T, maxN int) sparseCase {
 		k := rapid.IntRange(lo, hi).Draw(t, "k")
 		cols := rapid.SliceOfNDistinct(rapid.IntRange(0, n-1), k, k, rapid.ID[int]).Draw(t, "cols")
 		for _, j := range cols {
-			c.B = append(c.B, sparseEntry{i, j, gen.F(t, -1, 1, "v")})
+			c.B = append(c.B, sparseEntry{i, j, F(t, -1, 1, "v")})
 		}
 	}
 	for i := 0; i < n; i++ {
-		c.RHS = append(c.RHS, [3]float64{gen.F(t, -1, 1, "b"), gen.F(t, -1, 1, "b"), gen.F(t, -1, 1, "b")})
-		c.X = append(c.X, [3]float64{gen.F(t, -1, 1, "x"), gen.F(t, -1, 1, "x"), gen.F(t, -1, 1, "x")})
+		c.RHS = append(c.RHS, [3]float64{F(t, -1, 1, "b"), F(t, -1, 1, "b"), F(t, -1, 1, "b")})
+		c.X = append(c.X, [3]float64{F(t, -1, 1, "x"), F(t, -1, 1, "x"), F(t, -1, 1, "x")})
 	}
 	return c
 }
@@ -244,9 +243,12 @@ func checkSparse(c sparseCase, o *kit.Obs) error {
 		}
 	}
 	if !ident {
-		// the factorisation works on a genuinely re-ordered matrix
-		o.NonTrivial()
+		// label only: RCM breaks ties by map iteration order, so the permutation is not a function of the case
 		o.Label("perm!=identity")
+	}
+	if offdiag > 0 {
+		// off-diagonal coupling: the factorisation has fill and works on a re-ordered matrix
+		o.NonTrivial()
 	}
 	{
 		xp := make([][3]float64, n)
@@ -308,19 +310,34 @@ type cgCase struct {
 
 func genCG(t *rapid.T) cgCase {
 	c := cgCase{Sys: genSparse(t, 40), Guess: rapid.Bool().Draw(t, "guess")}
-	// the right-hand side is bounded away from zero by construction (a zero residual at the start is
-	// the documented "exact solution" corner, where the recurrences divide by zero)
+	// the right-hand side is bounded away from zero by construction ...
 	c.Sys.RHS[0][0] = math.Copysign(0.1+0.9*math.Abs(c.Sys.RHS[0][0]), c.Sys.RHS[0][0])
-	switch rapid.IntRange(0, 2).Draw(t, "crit") {
-	case 0:
-		c.MSE = gen.LogF(t, 1e-18, 1e-4, "mse")
-	case 1:
-		c.MAE = gen.LogF(t, 1e-9, 1e-2, "mae")
-	default:
-		c.MSE = gen.LogF(t, 1e-18, 1e-4, "mse")
-		c.MAE = gen.LogF(t, 1e-9, 1e-2, "mae")
+	// ... except in the dedicated zero class: b = 0 with no initial guess, whose solution is x = 0
+	if rapid.IntRange(0, 19).Draw(t, "zero-rhs") == 0 {
+		if kit.Excluded("bicgstab-zero-residual") {
+			kit.CountExcluded("bicgstab-zero-residual")
+		} else {
+			for i := range c.Sys.RHS {
+				c.Sys.RHS[i][0] = 0
+			}
+			c.Guess = false
+		}
 	}
-	if rapid.Bool().Draw(t, "bounded") {
+	crit := rapid.IntRange(0, 3).Draw(t, "crit")
+	if crit == 3 && kit.Excluded("bicgstab-iters-only-nan") {
+		kit.CountExcluded("bicgstab-iters-only-nan")
+		crit = 0
+	}
+	switch crit {
+	case 0:
+		c.MSE = LogF(t, 1e-18, 1e-4, "mse")
+	case 1:
+		c.MAE = LogF(t, 1e-9, 1e-2, "mae")
+	case 2:
+		c.MSE = LogF(t, 1e-18, 1e-4, "mse")
+		c.MAE = LogF(t, 1e-9, 1e-2, "mae")
+	}
+	if crit == 3 || rapid.Bool().Draw(t, "bounded") {
 		// exact arithmetic terminates within n iterations; 10n+50 is a generous cap on a cond <= 161 system
 		c.MaxIters = 10*c.Sys.N + 50
 	}
@@ -333,8 +350,9 @@ func checkCG(c cgCase, o *kit.Obs) error {
 		return err
 	}
 	n := c.Sys.N
-	if c.MSE <= 0 && c.MAE <= 0 {
-		return fmt.Errorf("%w: no tolerance", kit.ErrInfra)
+	itersOnly := c.MSE <= 0 && c.MAE <= 0
+	if itersOnly && c.MaxIters <= 0 {
+		return fmt.Errorf("%w: no stopping criterion (documented panic)", kit.ErrInfra)
 	}
 	b := make(numerical.Vec, n)
 	for i := range b {
@@ -351,6 +369,7 @@ func checkCG(c cgCase, o *kit.Obs) error {
 		}
 		return out
 	}
+	zero := maxAbsV(b) == 0
 	var guess numerical.Vec
 	if c.Guess {
 		guess = make(numerical.Vec, n)
@@ -363,8 +382,22 @@ func checkCG(c cgCase, o *kit.Obs) error {
 			return nil
 		}
 		o.Label("init-guess")
+	} else if zero {
+		// known finding: a zero initial residual makes the first step divide 0 by 0
+		if kit.Excluded("bicgstab-zero-residual") {
+			kit.CountExcluded("bicgstab-zero-residual")
+			return nil
+		}
+		o.Label("zero-rhs")
 	} else if maxAbsV(b) < 0.09 {
 		return fmt.Errorf("%w: right-hand side too small", kit.ErrInfra)
+	}
+	if itersOnly {
+		if kit.Excluded("bicgstab-iters-only-nan") {
+			kit.CountExcluded("bicgstab-iters-only-nan")
+			return nil
+		}
+		o.Label("iterations-only")
 	}
 	if offdiag > 0 {
 		o.NonTrivial()
@@ -390,8 +423,12 @@ func checkCG(c cgCase, o *kit.Obs) error {
 		sq += r * r
 		abs += math.Abs(r)
 	}
-	if math.IsNaN(sq) {
-		return fmt.Errorf("solution contains NaN")
+	if math.IsNaN(sq) || math.IsInf(sq, 0) {
+		return fmt.Errorf("BiCGSTAB (n=%d, MaxIters=%d, MSE=%g, MAE=%g, %d operator calls) returned a non-finite solution %v", n, c.MaxIters, c.MSE, c.MAE, ops, x)
+	}
+	if itersOnly {
+		// no tolerance is stated for an iteration-count-only configuration; the answer must at least be finite
+		return nil
 	}
 	// the stated stopping rule, with 0.1% slack for a different summation order
 	okMSE := c.MSE > 0 && sq < c.MSE*float64(n)*1.001
